@@ -143,21 +143,74 @@ def run(ctx):
     F = ctx.sval(fa)
     ip = fa.call_params()[0]
     res_t = F.ret()
-    words = {}
-    for t, v, pc, _, _ in F.stores:
-        if t[0] == 'index' and t[1] == ('attr', res_t, 'addr') and t[2][0] == 'const':
-            words[t[2][2]] = (v, pc)
-    v6 = norm_pc(((F.expr('%s.version == 6' % ip), True),))
-    ok = tq.is_call(res_t, 'new xfrm.XfrmAddress') and set(words) == {0, 1, 2, 3} \
-        and tq.match(F.expr("unpack_from('>I', %s.packed)[0]" % ip), words[0][0]) is not None and not words[0][1] \
-        and all(tq.match(F.expr("unpack_from('>III', %s.packed, 4)[%d]" % (ip, k - 1)), words[k][0]) is not None and words[k][1] == v6
-                for k in (1, 2, 3))
-    if set(words) != {0, 1, 2, 3} and not ok:
-        ctx.unrecognised('L3', 'XfrmAddress.from_ipaddr does not fill result.addr[0..3] by four plain stores', ctx.site(fa, fa.node))
+    packed = ('attr', ('param', ip), 'packed')
+    is6 = strip_ids(F.mk_cmp('==', ('attr', ('param', ip), 'version'), const(6)))
+    is4 = strip_ids(F.mk_cmp('==', ('attr', ('param', ip), 'version'), const(4)))
+
+    def word_map(v6):
+        """{word index: (byte offset in the packed address, width, byte order)} written into result.addr for an IPv6 / IPv4 address;
+        None when a store is not of a recognised form"""
+        def decide(t):
+            t = strip_ids(t)
+            if t == is6:
+                return v6
+            if t == is4:
+                return not v6
+            return None
+
+        def fields(u):
+            if not (tq.is_call(u) and u[1] in ('struct.unpack_from', 'struct.unpack')):
+                return None
+            a = [tq.restrict(x, decide) for x in tq.args(u).values()]
+            if not a or a[0][0] != 'const' or not isinstance(a[0][2], str) or len(a) < 2 or strip_ids(a[1]) != packed:
+                return None
+            off = a[2][2] if len(a) > 2 and a[2][0] == 'const' else 0
+            fmt = a[0][2]
+            if fmt[:1] not in ('>', '!'):
+                return None
+            import re as _re
+            import struct as _st
+            out, o = [], 0
+            for cnt, ch in _re.findall(r'(\d*)([IiLl])', fmt[1:]):
+                for _ in range(int(cnt) if cnt else 1):
+                    out.append((off + o, _st.calcsize('>' + ch), 'B'))
+                    o += _st.calcsize('>' + ch)
+            return out if _st.calcsize(fmt) == o else None
+        m = {}
+        for t, v, pc, _, _ in F.stores:
+            if not (t[0] == 'index' and strip_ids(t[1]) == strip_ids(('attr', res_t, 'addr'))):
+                continue
+            holds = True
+            for a_ in strip_ids(pc):
+                d_ = decide(a_[0])
+                if d_ is None:
+                    return None
+                holds = holds and (d_ == a_[1])
+            if not holds:
+                continue
+            k, val = strip_ids(t[2]), strip_ids(tq.restrict(v, decide))
+            if k[0] == 'const' and val[0] == 'index' and val[2][0] == 'const':
+                fs = fields(val[1])
+                if fs is None or not (0 <= val[2][2] < len(fs)):
+                    return None
+                m[k[2]] = fs[val[2][2]]
+            elif k[0] == 'idx' and strip_ids(v) == ('elem', k[1], 0):
+                fs = fields(tq.restrict(k[1], decide))       # for position, word in enumerate(unpack(..)): addr[position] = word
+                if fs is None:
+                    return None
+                for n_, f_ in enumerate(fs):
+                    m[n_] = f_
+            else:
+                return None
+        return m
+    m6, m4 = word_map(True), word_map(False)
+    if m6 is None or m4 is None or not tq.is_call(res_t, 'new xfrm.XfrmAddress'):
+        ctx.unrecognised('L3', 'XfrmAddress.from_ipaddr does not fill result.addr[..] from struct.unpack*(<big-endian format>, ip.packed[, offset])',
+                         ctx.site(fa, fa.node))
     else:
-        ctx.check(ok, 'L3', 'XfrmAddress.from_ipaddr stores the packed address in network order (IPv4 in the first word, the other '
-                  'three words for IPv6)', key=('L3', 'from-ipaddr'), site=ctx.site(fa, fa.node),
-                  detail={'stores': {k: tq.text(v[0]) for k, v in words.items()}})
+        ctx.check(m6 == {k: (4 * k, 4, 'B') for k in range(4)} and m4 == {0: (0, 4, 'B')}, 'L3',
+                  'XfrmAddress.from_ipaddr stores the packed address in network order (IPv4 in the first word, the other three '
+                  'words for IPv6)', key=('L3', 'from-ipaddr'), site=ctx.site(fa, fa.node), detail={'IPv6 words': m6, 'IPv4 words': m4})
     ta = ctx.func('xfrm.XfrmAddress.to_ipaddr')
     T = ctx.sval(ta)
     r = T.ret()
